@@ -190,6 +190,11 @@ pub fn gen_header(kind: Kind, r: &mut Rng, p_random_state: bool, cb: u8, bad_arg
                 // conversion constructors (FromIterator / From<collection>): sizes[0] = number of pairs
                 h.ctor = r.range(1, 8) as u8;
                 h.sizes[0] = r.below(6) as usize;
+                if h.sizes[0] >= 2 && r.chance(1, 3) {
+                    // the last sizes[1] pairs repeat the keys of the first ones
+                    let d = r.range(1, h.sizes[0] as u64 - 1) as usize;
+                    h.sizes.push(d);
+                }
             }
         }
         Kind::Slru => {
@@ -214,6 +219,16 @@ pub fn gen_header(kind: Kind, r: &mut Rng, p_random_state: bool, cb: u8, bad_arg
             h.sizes = vec![small_size(r, tier)];
             let mut rr = ratio(r);
             let mut gr = ratio(r);
+            // ratios of the form m/size: size x ratio lands on (or a rounding error away from) an
+            // integer, where an imprecise floor shows
+            if h.sizes[0] >= 2 && r.chance(1, 6) {
+                let sz = h.sizes[0] as u64;
+                if r.chance(1, 2) {
+                    rr = r.range(1, sz) as f64 / sz as f64;
+                } else {
+                    gr = r.range(1, sz) as f64 / sz as f64;
+                }
+            }
             if random_state {
                 h.ctor = r.below(5) as u8;
                 match h.ctor {
@@ -333,6 +348,9 @@ pub fn gen_header(kind: Kind, r: &mut Rng, p_random_state: bool, cb: u8, bad_arg
         Kind::Sampled => {
             h.max_cost = *r.pick(&[0i64, 1, 10, 100, 1000, -5, 1 << 40]);
             h.samples = *r.pick(&[0usize, 1, 2, 3, 5, 5, 8, 40]);
+            if r.chance(1, 12) {
+                h.samples = *r.pick(&[1023usize, 1024, 1025, 1200, 5000, usize::MAX]);
+            }
             h.ctor = if random_state { r.below(2) as u8 } else { r.below(5) as u8 };
             if (random_state && h.ctor == 0) || (!random_state && matches!(h.ctor, 1 | 3)) {
                 h.samples = 5; // DEFAULT_SAMPLES on these paths
@@ -569,6 +587,9 @@ struct KeyGen {
     mode: u8,
     cursor: u32,
     span: u32,
+    /// mode 5 (scale shapes): highest key put so far and the number of resident slots
+    hi: u32,
+    total: u32,
 }
 impl KeyGen {
     fn next(&mut self, r: &mut Rng) -> u32 {
@@ -582,6 +603,18 @@ impl KeyGen {
                 // loop slightly larger than the cache
                 self.cursor = self.cursor % self.span.max(1) + 1;
                 self.cursor
+            }
+            5 => {
+                // the ends of a long scan: oldest keys, newest keys (and fresh ones just beyond), the
+                // region where the resident set ends, anything
+                let hi = self.hi.max(1);
+                let around = |r: &mut Rng, c: u32| -> u32 { (c + r.below(9) as u32).saturating_sub(4).clamp(1, self.universe) };
+                match r.below(8) {
+                    0 | 1 => r.below(6.min(self.universe as u64)) as u32 + 1,
+                    2..=4 => around(r, hi),
+                    5 | 6 => around(r, hi.saturating_sub(self.total).max(1)),
+                    _ => r.below(self.universe as u64) as u32 + 1,
+                }
             }
             3 => {
                 // skewed to small idents
@@ -710,7 +743,7 @@ fn gen_cache_op(kind: Kind, h: &Header, r: &mut Rng, kg: &mut KeyGen, table: &[(
         Resize => {
             let cap = h.sizes[0] as u64;
             op.n = match r.below(11) {
-                10 if r.chance(1, 3) => -(r.range(1, 3) as i64),
+                10 if r.chance(1, 3) => -(r.range(1, 6) as i64),
                 0 => 0,
                 1 => 1,
                 2 => cap as i64,
@@ -781,7 +814,7 @@ fn gen_tlfu_op(h: &Header, r: &mut Rng, hashes: &[u64]) -> Op {
     op
 }
 
-fn gen_sampled_op(h: &Header, r: &mut Rng, hashes: &[u64]) -> Op {
+fn gen_sampled_op(h: &Header, r: &mut Rng, hashes: &[u64], big: bool) -> Op {
     use Code::*;
     let table: [(Code, u32); 10] = [
         (SInc, 14),
@@ -808,20 +841,34 @@ fn gen_sampled_op(h: &Header, r: &mut Rng, hashes: &[u64]) -> Op {
             _ => r.below(100) as i64,
         }
     };
+    // costs near the ends of the i64 range: at most two tracked entries (one key, one raw hash)
+    // of magnitude <= 4e18 each, so that the true sums stay representable
+    let big_cost = |r: &mut Rng| -> i64 {
+        let m = *r.pick(&[4_000_000_000_000_000_000i64, 3_999_999_999_999_999_999, 2_000_000_000_000_000_000, 1_000_000_000_000_000_000, 3_500_000_000_000_000_000, 7]);
+        if r.chance(1, 3) {
+            -m
+        } else {
+            m
+        }
+    };
     match code {
         SInc | SUpd => {
             op.k = key(r);
-            op.n = cost(r);
+            op.n = if big { big_cost(r) } else { cost(r) };
         }
         SIncH | SUpdH => {
             op.v = *r.pick(hashes);
-            op.n = cost(r);
+            op.n = if big { big_cost(r) } else { cost(r) };
         }
         SRem => op.k = key(r),
         SRemH => op.v = *r.pick(hashes),
         SMax | SRoom => op.n = cost(r),
         SFill => {
-            let n = r.below(h.samples as u64 + 3);
+            let n = if h.samples > 1000 {
+                *r.pick(&[0u64, 3, 1020, 1023, 1024, 1025, 1030, 1100])
+            } else {
+                r.below(h.samples as u64 + 3)
+            };
             for _ in 0..n {
                 op.xs.push(r.next_u64() | (1 << 62));
                 op.xs.push(cost(r) as u64);
@@ -960,6 +1007,96 @@ pub fn gen(prop: &str, verif_seed: u64, run_index: u64, tier: Tier) -> Trace {
             h.universe = (total + 5) as u32;
         }
     }
+    // rare "scale shapes": hundreds to thousands of entries, reached by macro events (Code::Fill)
+    // whose calls are judged by their results only; the events around them get every oracle.
+    // Thresholds that only large configurations cross (bulk paths, clamps, batched loops, table
+    // growth) are out of reach of the tiny shapes whatever the number of runs.
+    let mut scale = false;
+    // "frequency shapes" (W-TinyLFU): a few keys are read 13..31 times in a row so that sketch
+    // counters saturate (4-bit) within one sample period
+    let mut freq = false;
+    if !grid_point && !stress && prop != "C18" && !h.random_state && h.kind.n_lists() > 0 && rc.chance(1, 150) {
+        let thorough = tier == Tier::Thorough;
+        match h.kind {
+            Kind::Lru => {
+                h.sizes = vec![*rc.pick(&[130usize, 257, 300, 1030, 1100, 1500])];
+                if thorough && rc.chance(1, 4) {
+                    h.sizes = vec![*rc.pick(&[2100usize, 4200])];
+                }
+                scale = true;
+            }
+            Kind::Slru => {
+                let (a, b) = *rc.pick(&[(130usize, 140usize), (56, 56), (112, 40), (20, 20), (28, 56), (224, 224), (448, 100), (1030, 1040), (8, 1100)]);
+                h.sizes = vec![a, b];
+                scale = true;
+            }
+            Kind::TwoQ => {
+                h.sizes = vec![*rc.pick(&[50usize, 64, 100, 100, 128, 200, 255, 500, 1000, 1100])];
+                let sz = h.sizes[0] as u64;
+                let q = |rc: &mut Rng| -> f64 {
+                    match rc.below(5) {
+                        4 => rc.range(1, sz) as f64 / sz as f64,
+                        0 => rc.below(101) as f64 / 100.0,
+                        1 => rc.below(1001) as f64 / 1000.0,
+                        2 => rc.below(9) as f64 / 8.0,
+                        _ => *rc.pick(&[0.25, 0.5, 0.1, 0.3, 0.7, 1.0]),
+                    }
+                };
+                let rr = q(&mut rc);
+                let mut gr = q(&mut rc);
+                if ((h.sizes[0] as f64) * gr).floor() < 1.0 {
+                    gr = 0.5;
+                }
+                h.ratios = vec![rr, gr];
+                scale = true;
+            }
+            Kind::Arc => {
+                h.sizes = vec![*rc.pick(&[130usize, 300, 1030])];
+                if thorough && rc.chance(1, 4) {
+                    h.sizes = vec![4200];
+                }
+                scale = true;
+            }
+            Kind::Wtlfu => {
+                if rc.chance(1, 2) {
+                    let (w, p, q) = *rc.pick(&[(1usize, 64usize, 64usize), (1, 100, 30), (4, 1030, 8), (4, 8, 1040), (2, 130, 130), (3, 56, 56), (1, 20, 1100)]);
+                    h.sizes = vec![w, p, q];
+                    h.samples = *rc.pick(&[40usize, 1000, 10_000, 100_000]);
+                    scale = true;
+                } else {
+                    h.sizes = vec![rc.range(1, 3) as usize, rc.range(1, 3) as usize, rc.range(1, 3) as usize];
+                    h.samples = *rc.pick(&[1000usize, 10_000, 10_000]);
+                    freq = true;
+                }
+            }
+            _ => {}
+        }
+        if scale && thorough && rc.chance(1, 250) {
+            // beyond 2^16 entries in one list (thorough tier only: such a run takes seconds)
+            match h.kind {
+                Kind::Lru => h.sizes = vec![65_600],
+                Kind::Slru => h.sizes = if rc.chance(1, 2) { vec![8, 65_600] } else { vec![65_600, 8] },
+                Kind::TwoQ => {
+                    h.sizes = vec![70_000];
+                    h.ratios = vec![0.5, 0.5];
+                }
+                _ => {}
+            }
+        }
+        let total: usize = h.sizes.iter().take(3).sum();
+        h.universe = (2 * total + 40) as u32;
+        if scale {
+            // an all-colliding hasher makes every call linear in the table size: keep the fills linear
+            for hs in h.hashers.iter_mut() {
+                if matches!(hs.kind, HKind::Const0 | HKind::Masked) {
+                    hs.kind = HKind::Sip;
+                }
+            }
+        }
+        if freq {
+            h.universe = (total + 4) as u32;
+        }
+    }
     let mut conversion_run = false;
     if prop == "C17" && rc.chance(1, 16) {
         // conversions (FromIterator / From<collection>) go through RandomState-keyed tables:
@@ -969,9 +1106,15 @@ pub fn gen(prop: &str, verif_seed: u64, run_index: u64, tier: Tier) -> Trace {
         h.key_type = "TK".into();
         h.with_cb = false;
         h.ctor = rc.range(1, 8) as u8;
-        h.sizes[0] = rc.range(2, 7) as usize;
+        h.sizes = vec![rc.range(2, 7) as usize];
+        if rc.chance(1, 3) {
+            let d = rc.range(1, h.sizes[0] as u64 - 1) as usize;
+            h.sizes.push(d);
+        }
         h.universe = h.sizes[0] as u32 + 3;
         conversion_run = true;
+        scale = false;
+        freq = false;
     }
     let kind = h.kind;
     if prop == "C18" {
@@ -1026,9 +1169,16 @@ pub fn gen(prop: &str, verif_seed: u64, run_index: u64, tier: Tier) -> Trace {
             }
         }
         Kind::Sampled => {
-            let hashes = raw_hash_universe(&mut rc);
+            let mut hashes = raw_hash_universe(&mut rc);
+            let big = rc.chance(1, 10);
+            if big {
+                hashes.truncate(1);
+                h.universe = 1;
+                h.max_cost = *rc.pick(&[0i64, 1000, -5, 1 << 40]);
+            }
+            let len = if h.samples > 1000 { len.min(30) } else { len };
             for _ in 0..len {
-                events.push(Event::new(gen_sampled_op(&h, &mut ro, &hashes)));
+                events.push(Event::new(gen_sampled_op(&h, &mut ro, &hashes, big)));
             }
         }
         _ => {
@@ -1051,11 +1201,100 @@ pub fn gen(prop: &str, verif_seed: u64, run_index: u64, tier: Tier) -> Trace {
                 },
                 cursor: 0,
                 span: (total as u32 + 1).min(h.universe),
+                hi: 0,
+                total: total as u32,
             };
             let mix = rc.below(4) as u8;
             let table = weights(kind, mix, pl.iters, controlled);
-            for _ in 0..len {
-                events.push(Event::new(gen_cache_op(kind, &h, &mut ro, &mut kg, &table, &mut next_val)));
+            if scale {
+                kg.mode = 5;
+                let fill = |fam: u8, k: u32, stride: u32, n: u64, next_val: &mut u64| -> Event {
+                    let mut op = Op::new(Code::Fill);
+                    op.fam = fam;
+                    op.k = k;
+                    op.k2 = stride;
+                    op.n = n as i64;
+                    if matches!(fam, 0 | 2 | 4) {
+                        op.v = *next_val;
+                        *next_val += n;
+                    }
+                    Event::new(op)
+                };
+                let n1 = total as u64 + rs.below(total as u64 + 20);
+                let mut first = fill(*rs.pick(&[0u8, 0, 2, 4]), 1, 1, n1, &mut next_val);
+                if first.op.fam == 4 {
+                    first.op.w = *rs.pick(&[1u64, 2, 5, 8, h.sizes[0] as u64 + 1, h.sizes[0] as u64 + 2]);
+                }
+                events.push(first);
+                kg.hi = n1 as u32;
+                let phases = rs.range(1, 3);
+                for _ in 0..phases {
+                    if rs.chance(1, 2) {
+                        // reads (promotions), overwrites or removals over a stretch of what was put
+                        let a = 1 + rs.below(kg.hi as u64);
+                        let l = rs.below((kg.hi as u64 - a + 2).min(total as u64 + 10));
+                        events.push(fill(*rs.pick(&[1u8, 1, 0, 3]), a as u32, 1, l, &mut next_val));
+                    }
+                    for _ in 0..rs.range(4, 14) {
+                        events.push(Event::new(gen_cache_op(kind, &h, &mut ro, &mut kg, &table, &mut next_val)));
+                    }
+                    if rs.chance(1, 3) {
+                        events.push(Event::new(Op::new(Code::Purge)));
+                        for _ in 0..rs.range(1, 4) {
+                            events.push(Event::new(gen_cache_op(kind, &h, &mut ro, &mut kg, &table, &mut next_val)));
+                        }
+                        let n2 = rs.below(total as u64 + 20);
+                        let k0 = if rs.chance(1, 2) { 1 } else { kg.hi + 1 };
+                        events.push(fill(0, k0, 1, n2, &mut next_val));
+                        kg.hi = (k0 as u64 + n2).saturating_sub(1).max(1).min((h.universe as u64).saturating_sub(8).max(1)) as u32;
+                    }
+                }
+            } else if freq {
+                // hot keys: read 13..31 times in a row, before or after they are put
+                let hot: Vec<u32> = (0..rs.range(2, 5)).map(|_| kg.next(&mut ro)).collect();
+                let reads = |rs: &mut Rng, k: u32| -> Event {
+                    let mut op = Op::new(Code::Fill);
+                    op.fam = 1;
+                    op.k = k;
+                    op.k2 = 0;
+                    op.n = *rs.pick(&[13i64, 14, 15, 15, 16, 16, 17, 18, 25, 31]);
+                    Event::new(op)
+                };
+                let put = |k: u32, next_val: &mut u64| -> Event {
+                    let mut op = Op::new(Code::Put);
+                    op.k = k;
+                    op.v = *next_val;
+                    *next_val += 1;
+                    Event::new(op)
+                };
+                let rounds = rs.range(3, 10);
+                for _ in 0..rounds {
+                    let k = *rs.pick(&hot);
+                    match rs.below(3) {
+                        0 => {
+                            // put, read many times while it sits in the window, put again
+                            events.push(put(k, &mut next_val));
+                            events.push(reads(&mut rs, k));
+                            for _ in 0..rs.below(2) {
+                                events.push(Event::new(gen_cache_op(kind, &h, &mut ro, &mut kg, &table, &mut next_val)));
+                            }
+                            events.push(put(k, &mut next_val));
+                        }
+                        1 => {
+                            // read many times (misses count), then put
+                            events.push(reads(&mut rs, k));
+                            events.push(put(k, &mut next_val));
+                        }
+                        _ => events.push(reads(&mut rs, k)),
+                    }
+                    for _ in 0..rs.below(7) {
+                        events.push(Event::new(gen_cache_op(kind, &h, &mut ro, &mut kg, &table, &mut next_val)));
+                    }
+                }
+            } else {
+                for _ in 0..len {
+                    events.push(Event::new(gen_cache_op(kind, &h, &mut ro, &mut kg, &table, &mut next_val)));
+                }
             }
         }
     }
@@ -1074,7 +1313,7 @@ pub fn gen(prop: &str, verif_seed: u64, run_index: u64, tier: Tier) -> Trace {
     }
     // forker client (C16 and friends): clone, lock step, independence, drop one twin
     let cloneable = matches!(kind, Kind::Lru | Kind::Slru | Kind::Wtlfu | Kind::Tlfu);
-    if pl.forks && cloneable && (prop == "C16" || rs.chance(1, 3)) {
+    if pl.forks && cloneable && !scale && (prop == "C16" || rs.chance(1, 3)) {
         let at = rs.below(events.len() as u64 + 1) as usize;
         events.insert(at, Event::new(Op::new(Code::Fork)));
         let rest = events.len() - (at + 1);
@@ -1105,7 +1344,7 @@ pub fn gen(prop: &str, verif_seed: u64, run_index: u64, tier: Tier) -> Trace {
         probe_all: pl.probe_all && rs.chance(3, 4),
         env_b: None,
     };
-    if prop == "C18" || stress {
+    if prop == "C18" || stress || scale {
         t.probe_all = false;
     }
     if prop == "C15" && t.header.with_cb && rs.chance(1, 5) {
@@ -1116,7 +1355,14 @@ pub fn gen(prop: &str, verif_seed: u64, run_index: u64, tier: Tier) -> Trace {
     if conversion_run {
         // single execution; the order-stability check is part of the construction
     } else if pl.env_pair && controlled {
-        let hashers = (0..t.header.hashers.len()).map(|_| gen_hasher(&mut re)).collect();
+        let mut hashers: Vec<HasherSpec> = (0..t.header.hashers.len()).map(|_| gen_hasher(&mut re)).collect();
+        if scale {
+            for hs in hashers.iter_mut() {
+                if matches!(hs.kind, HKind::Const0 | HKind::Masked) {
+                    hs.kind = HKind::Fnv;
+                }
+            }
+        }
         t.env_b = Some(EnvB {
             hashers,
             alloc: AllocSpec {
